@@ -105,14 +105,20 @@ func namedOf(t types.Type) *types.Named {
 // SSA: the defer is the first call-like instruction of the entry block; its callee (in the module) calls the builtin
 // recover and stores to a *error parameter or captured variable; the accessor passes the address of its named error result.
 func (e *Engine) recoverBoundaryChecks(id string) []fdResult {
-	if id != "C17" {
-		return nil
-	}
+	type boundary struct{ prop, pkg, fn, label, goal string }
 	var out []fdResult
-	for _, name := range []string{"ToOpenAPIJson", "ToOpenAPIJsonIndent"} {
-		fn := e.lookupFunc(modPath+"/kit", "(*JApi)."+name)
-		r := fdResult{Name: "kit.JApi." + name + "/recover-at-boundary#1", Props: []string{"C17"},
-			Goal: "a panic of the OpenAPI conversion is recovered and returned as the error of " + name}
+	for _, bd := range []boundary{
+		{"C17", "kit", "(*JApi).ToOpenAPIJson", "kit.JApi.ToOpenAPIJson", "a panic of the OpenAPI conversion is recovered and returned as the error of ToOpenAPIJson"},
+		{"C17", "kit", "(*JApi).ToOpenAPIJsonIndent", "kit.JApi.ToOpenAPIJsonIndent", "a panic of the OpenAPI conversion is recovered and returned as the error of ToOpenAPIJsonIndent"},
+		// the two trusted recover idioms of the build (their contracts assume "no panic"): the structural half is checked
+		{"C01", "scanner", "enumLen", "scanner.enumLen", "a panic of the schema library's enum scanner is recovered and returned as the error of the enum body (D26)"},
+		{"C01", "kit", "readPanicFree", "kit.readPanicFree", "a panic of the file reader is recovered and returned as the error of reading the root file"},
+	} {
+		if bd.prop != id {
+			continue
+		}
+		fn := e.lookupFunc(modPath+"/"+bd.pkg, bd.fn)
+		r := fdResult{Name: bd.label + "/recover-at-boundary#1", Props: []string{bd.prop}, Goal: bd.goal}
 		if fn == nil || fn.Blocks == nil {
 			r.Detail = "accessor not found"
 			out = append(out, r)
